@@ -25,7 +25,7 @@ import (
 func TestMain(m *testing.M) {
 	logrus.SetOutput(io.Discard)
 	logrus.SetLevel(logrus.PanicLevel)
-	ev.C().Rule("rapid: datagrams of 1..12 segments drawn from {line with known fields (colliding series, names needing in-place normalisation, 0..7 tags incl. host: tags), known-invalid line, event with known fields, empty line, arbitrary piece}, with/without trailing newline x ignore-host x namespace x sender x timestamp; then a second datagram through the same parser and both buffers overwritten with 0xAA. Oracles: (1) whole datagram == fold of each segment parsed alone (last gauge line wins), (2) direct model from the known fields, (3) snapshot immutability. Non-trivial = a rejected or normalised line adjacent to a valid one, or two gauge lines of one series, or a line with more tags than the pooled capacity")
+	ev.C().Rule("rapid: datagrams of 1..12 segments drawn from {line with known fields (colliding series, names needing in-place normalisation, 0..7 tags incl. host: tags), known-invalid line, event with known fields, empty line, arbitrary piece}, with/without trailing newline x ignore-host x namespace x sender x timestamp; then a second datagram through the same parser and both buffers overwritten with 0xAA. Oracles: (1) whole datagram == fold of each segment parsed alone (last gauge line wins), (2) direct model from the known fields, (3) snapshot immutability; UDP layer: datagrams (one in four of the largest size, 65507 bytes) queued in pooled receive buffers behind a parser whose dispatch is held. Non-trivial = a rejected or normalised line adjacent to a valid one, or two gauge lines of one series, or a line with more tags than the pooled capacity")
 	vt.Main(m)
 }
 
